@@ -281,7 +281,7 @@ func drawC16(t *rapid.T) C16Case {
 		MaxDec:    rapid.SampledFrom([]int{2, 4, 8, 12}).Draw(t, "maxDec"),
 		WideDates: true,
 	}
-	gen.MaybeLarge(t, &cfg, 40)
+	gen.MaybeLarge(t, &cfg, 4)
 	j := gen.GenJournal(t, cfg)
 	if c16OpenMirrors && rapid.Bool().Draw(t, "openMirrors") {
 		// open every valuation mirror account on the first day (unless the journal handles it itself)
